@@ -9,6 +9,7 @@ import gens_staking
 import gens_markets
 import gens_more
 import gens_sync
+import gens_rewards
 import vlib
 
 # model-checking configuration per family and tier: (module, cfg)
@@ -163,8 +164,17 @@ def determinism(tier, seed):
     return gens_sync.determinism(rnd, {"quick": 20, "thorough": 400}[tier]) + regress("determinism")
 
 
+def rewards(tier, seed):
+    rnd = random.Random("%d/rewards" % seed)
+    raw = vlib.tlc_generate_raw("MCRewards", "gen/MCRewardsGen.cfg")
+    scs = sample(rnd, gens_rewards.from_model(raw), {"quick": 150, "thorough": 0}[tier])
+    scs += gens_rewards.rewards(rnd, {"quick": 40, "thorough": 1200}[tier])
+    return scs + regress("rewards")
+
+
+MC["rewards"] = {"quick": ("MCRewards", "mc/MCRewards.cfg"), "thorough": ("MCRewards", "mc/MCRewards_t.cfg")}
 MC["statesync"] = {"quick": ("Durability", "mc/MCDurability_C29.cfg"), "thorough": ("Durability", "mc/MCDurability_C29_t.cfg")}
 MC["export"] = None
 MC["determinism"] = None
-BUILDERS = {"statesync": statesync, "export": export, "determinism": determinism,"markets": markets, "staking": staking, "ledger": ledger, "durability": durability, "crash": lambda tier, seed: crash(tier, seed) + crash_enumeration(tier, seed)}
+BUILDERS = {"rewards": rewards, "statesync": statesync, "export": export, "determinism": determinism,"markets": markets, "staking": staking, "ledger": ledger, "durability": durability, "crash": lambda tier, seed: crash(tier, seed) + crash_enumeration(tier, seed)}
 RANDOMISED = True
